@@ -508,6 +508,8 @@ func FunctionMap() map[string]physical.FunctionDetails {
 
 							needsEscaping := func(r rune) bool {
 								return r == '+' ||
+									r == '*' ||
+									r == '|' ||
 									r == '?' ||
 									r == '(' ||
 									r == ')' ||
@@ -527,7 +529,7 @@ func FunctionMap() map[string]physical.FunctionDetails {
 								}
 
 								var sb strings.Builder
-								sb.WriteRune('^') // match start
+								sb.WriteString("(?s)^") // match start; (?s): _ and % also match newlines
 
 								escaping := false // was the character previously seen an escaping \
 
@@ -645,13 +647,13 @@ func FunctionMap() map[string]physical.FunctionDetails {
 						}
 
 						return func(values []octosql.Value) (octosql.Value, error) {
-							pattern := strings.ToLower(values[1].Str)
+							pattern := values[1].Str
 
 							var reg *regexp.Regexp
 							if cached, ok := regexpCache.Get(pattern); ok {
 								reg = cached.(*regexp.Regexp)
 							} else {
-								compiled, err := regexp.Compile(pattern)
+								compiled, err := regexp.Compile("(?i)" + pattern)
 								if err != nil {
 									return octosql.Value{}, fmt.Errorf("couldn't compile ~ pattern regexp expression: '%s': %w", pattern, err)
 								}
@@ -660,7 +662,7 @@ func FunctionMap() map[string]physical.FunctionDetails {
 								regexpCache.Set(pattern, compiled, 1)
 							}
 
-							return octosql.NewBoolean(reg.MatchString(strings.ToLower(values[0].Str))), nil
+							return octosql.NewBoolean(reg.MatchString(values[0].Str)), nil
 						}
 					}(),
 				},
@@ -701,8 +703,9 @@ func FunctionMap() map[string]physical.FunctionDetails {
 					OutputType:    octosql.String,
 					Strict:        true,
 					Function: func(values []octosql.Value) (octosql.Value, error) {
-						out := make([]rune, len(values[0].Str))
-						for i, ch := range values[0].Str {
+						in := []rune(values[0].Str)
+						out := make([]rune, len(in))
+						for i, ch := range in {
 							out[len(out)-i-1] = ch
 						}
 						return octosql.NewString(string(out)), nil
